@@ -549,3 +549,40 @@ impl<'g, T> Pointer for WeakSnapshot<'g, T> {
         Pointer::fmt(&self.ptr, f)
     }
 }
+
+/// Read-only introspection for the verification harness.
+#[cfg(circ_verif)]
+pub(crate) mod verif_weak {
+    use super::*;
+
+    pub fn weak_word<T>(w: &Weak<T>) -> usize {
+        w.ptr.verif_word()
+    }
+    pub fn weak_snapshot_word<T>(s: &WeakSnapshot<'_, T>) -> usize {
+        s.ptr.verif_word()
+    }
+    /// The raw word currently stored in the cell, read without passing a yield point.
+    pub fn atomic_weak_peek<T>(a: &AtomicWeak<T>) -> usize {
+        a.link.load(Ordering::SeqCst).verif_word()
+    }
+    /// `(strong, weak, destructed, weaked, epoch)`.
+    pub fn weak_counts<T>(w: &Weak<T>) -> Option<(u32, u32, bool, bool, u32)> {
+        unsafe {
+            w.ptr
+                .as_raw()
+                .as_ref()
+                .map(|p| crate::utils::verif_shim::counts_ptr(p))
+        }
+    }
+    /// # Safety
+    ///
+    /// The block must still be allocated.
+    pub unsafe fn weak_snapshot_counts<T>(
+        s: &WeakSnapshot<'_, T>,
+    ) -> Option<(u32, u32, bool, bool, u32)> {
+        s.ptr
+            .as_raw()
+            .as_ref()
+            .map(|p| crate::utils::verif_shim::counts_ptr(p))
+    }
+}
